@@ -139,6 +139,8 @@ def gen_scenario(rng, idx):
             for e in sc[key]:
                 e["alias"] = e["alias"].replace("." + type_, "." + sc["type"]).replace("." + type_.swapcase(), "." + sc["type"].swapcase()).replace("." + type_.upper(), "." + sc["type"].upper())
         type_ = sc["type"]
+    if rng.random() < 0.3:
+        sc["api"] = "aio"  # through the public asyncio wrapper AsyncZeroconf (async_register_service / async_unregister_service / `async with`)
     if rng.random() < 0.15:
         sc["ifaces"] = 2  # a host with two interfaces: every probe and announcement leaves on both
     if kind in ("inject", "peer", "quiet") and "qann" not in sc:
@@ -341,6 +343,11 @@ def run_scenario(sc):
         a = make_host(sim, sc.get("ifaces", 1))
         za = a.zc
         await za.async_wait_for_start()
+        api = za
+        if sc.get("api") == "aio":
+            from zeroconf.asyncio import AsyncZeroconf
+
+            api = AsyncZeroconf(zc=za)
         t0 = WARM
         salt = [0]
 
@@ -412,7 +419,7 @@ def run_scenario(sc):
         async def scenario_register(info):
             first_name = info.name
             try:
-                task = await za.async_register_service(info, ttl=sc["ttl_arg"], allow_name_change=sc["allow"], strict=sc.get("strict", True))
+                task = await api.async_register_service(info, ttl=sc["ttl_arg"], allow_name_change=sc["allow"], strict=sc.get("strict", True))
                 results.append(("ok", info.name))
                 schedule_name_questions(info, first_name)
                 for q in sc.get("qann", []):
@@ -432,7 +439,7 @@ def run_scenario(sc):
         if sc["kind"] == "reuse":
             await sim.sleep_until(t0 + sc["unreg_at"])
             if results and results[0][0] == "ok":
-                gt = await za.async_unregister_service(info)
+                gt = await api.async_unregister_service(info)
                 await gt
             await sim.sleep_until(t0 + sc["reuse_at"])
             await scenario_register(info)
@@ -447,7 +454,10 @@ def run_scenario(sc):
                            "servers": {k: list(v) for k, v in za.registry.servers.items()}}
         obs["ev"] = tap.ev
         obs["qab"] = qab_log
-        await vsim.close_host(a)
+        if sc.get("api") == "aio":
+            await api.__aexit__(None, None, None)
+        else:
+            await vsim.close_host(a)
         if peer is not None:
             await vsim.close_host(peer)
 
@@ -874,12 +884,16 @@ def evaluate(sc, res, lines, pending):
         res.count("name-question:%s:%s" % (q["role"], q["mode"]))
     if sc.get("ifaces", 1) > 1:
         res.count("two-interfaces")
+    res.count("api:" + sc.get("api", "zeroconf"))
     if not sc.get("strict", True):
         res.count("strict=False:non-rfc6335-type")
     if len(sc["text"]) > 2000:
         res.count("txt-needs-own-datagram")
     if obs["errors"]:
         res.count("loop-errors")
+        # an exception that escapes a background task / timer callback into the loop's handler (a goodbye or announcement task that dies
+        # half-way looks like a short sequence otherwise): never on the unchanged tree
+        res.violate("C09:exception-in-event-loop", "an exception reached the event loop's handler: %s" % obs["errors"][0][:300], case)
     calls = blocks_of(obs)
     for ci, call in enumerate(calls):
         res.count("outcome:" + str(call["outcome"]))
@@ -945,6 +959,99 @@ def compare(res, pending, model):
             res.disagree("c09run", case, {"blocks": impl, "final": call["final_name"], "outcome": call["outcome"]}, line[:3000])
 
 
+# ------------------------------------------------------------------------------------------
+# the synchronous API on real threads (the simulator cannot host them): `Zeroconf.register_service(info, allow_name_change=...)`
+
+SYNC_FAST = 40  # ms standing for the probe interval (all protocol timers of _core shortened alike)
+
+
+def sync_register_case(allow, conflict):
+    """thread-backed instance, recording transports on the real loop (harness/c17_threads.Rig); the cache optionally holds a peer's
+    pointer for the name.  Returns outcome, final name, the names probed for and the names announced."""
+    import socket
+    import time
+
+    from . import c17_threads as T
+    from zeroconf import DNSIncoming, DNSPointer, ServiceInfo, Zeroconf, const
+
+    typ = "_sync._tcp.local."
+    name = "s0." + typ
+    obs = {}
+    with T.Rig(fast=SYNC_FAST) as rig:
+        zc = Zeroconf(interfaces=["10.0.0.1"])
+        try:
+            info = ServiceInfo(typ, name, 80, addresses=[socket.inet_aton("10.0.0.1")], server="hs.local.")
+            if conflict:
+                async def learn():
+                    zc.cache.async_add_records([DNSPointer(typ, const._TYPE_PTR, const._CLASS_IN, 4500, name)])
+
+                asyncio.run_coroutine_threadsafe(learn(), zc.loop).result(2)
+            n0 = len(rig.log)
+            try:
+                zc.register_service(info, allow_name_change=allow)
+                outcome = "ok"
+            except Exception as ex:  # noqa: BLE001
+                outcome = type(ex).__name__
+            time.sleep(2 * SYNC_FAST / 1000.0)
+            probes, announced = [], []
+            for (t, kind, data, addr) in rig.log[n0:]:
+                if kind != "sent":
+                    continue
+                m = DNSIncoming(data)
+                if not m.valid:
+                    continue
+                recs = list(m.answers())
+                if m.is_query():
+                    probes += [r.alias for r in recs if isinstance(r, DNSPointer)]
+                else:
+                    announced += [r.alias for r in recs if isinstance(r, DNSPointer) and r.ttl > 0]
+            obs = {"outcome": outcome, "final": info.name, "probes": probes, "announced": announced, "registry": sorted(zc.registry._services)}
+        finally:
+            try:
+                zc.close()
+            except Exception:  # noqa: BLE001
+                pass
+    return obs
+
+
+def sync_register_oracle(case, obs, res):
+    """the English sentence on the synchronous wrapper: three probes for the name that is registered, then the announcements; a conflict
+    fails the call or renames, as the caller's `allow_name_change` says"""
+    res.evaluations += 1
+    res.count("sync:allow=%s:conflict=%s" % (case["allow"], case["conflict"]))
+    first = "s0._sync._tcp.local."
+    full = dict(case, observed=obs)
+    if case["conflict"] and not case["allow"]:
+        if obs["outcome"] != "NonUniqueNameException" or obs["announced"] or obs["registry"]:
+            res.violate("C09:sync-register-conflict-not-raised", "register_service(info) with the name taken and renaming not allowed: outcome %s, announced %r, registry %r"
+                        % (obs["outcome"], obs["announced"][:3], obs["registry"]), full)
+        return
+    want = "s0-2._sync._tcp.local." if case["conflict"] else first
+    if obs["outcome"] != "ok" or obs["final"] != want:
+        res.violate("C09:sync-register-wrong-name", "register_service(info, allow_name_change=%s), name %s: outcome %s, name %r (expected %r)"
+                    % (case["allow"], "taken" if case["conflict"] else "free", obs["outcome"], obs["final"], want), full)
+        return
+    if len([p for p in obs["probes"] if p == want]) < 3:
+        res.violate("C09:sync-register-without-probes", "register_service(info, allow_name_change=%s) registered %r after %d probes for it (probes: %r)"
+                    % (case["allow"], want, len([p for p in obs["probes"] if p == want]), obs["probes"][:4]), full)
+    if len([a for a in obs["announced"] if a == want]) < 3 or (case["conflict"] and first in obs["announced"]):
+        res.violate("C09:sync-register-announcements", "register_service announced %r (expected three announcements of %r%s)"
+                    % (obs["announced"][:4], want, ", none of the conflicting name" if case["conflict"] else ""), full)
+    res.nontriv(("sync", case["allow"], case["conflict"]))
+
+
+def run_sync(res, seed):
+    cases = [{"stream": "sync-register", "allow": True, "conflict": True}, {"stream": "sync-register", "allow": False, "conflict": True},
+             {"stream": "sync-register", "allow": bool(seed % 2), "conflict": False}]
+    for case in cases:
+        try:
+            obs = sync_register_case(case["allow"], case["conflict"])
+        except Exception as ex:  # noqa: BLE001
+            res.notes.append("sync case %r could not run: %r" % (case, ex))
+            continue
+        sync_register_oracle(case, obs, res)
+
+
 def run(ctx):
     res = C.Result("C09")
     rng = C.rng_for(ctx["seed"], "c09")
@@ -958,6 +1065,7 @@ def run(ctx):
     for name, body in C.load_corpus("C09"):
         evaluate(body["scenario"] if "scenario" in body else body, res, lines, pending)
         res.count("corpus")
+    run_sync(res, ctx["seed"])
     for i in range(n):
         sc = gen_scenario(rng, i)
         try:
@@ -975,6 +1083,12 @@ def run(ctx):
 
 
 def replay(body):
+    case = body.get("case", body)
+    if case.get("stream") == "sync-register":
+        res = C.Result("C09")
+        obs = sync_register_case(case["allow"], case["conflict"])
+        sync_register_oracle(case, obs, res)
+        return {"violates": bool(res.violations), "violations": [(v["sig"], v["what"]) for v in res.violations], "observed": obs}
     sc = body["case"]["scenario"] if "case" in body else body["scenario"]
     res = C.Result("C09")
     lines, pending = [], []
